@@ -122,6 +122,9 @@ def to_tokens(eng, v, ts):
     elif isinstance(x, En) and x.enum == "Type": to_tokens(eng, x.f[0], ts)
     elif isinstance(x, Agg) and x.tag == "RepInterp": to_tokens(eng, x.f[0], ts)
     elif isinstance(x, Agg) and x.tag == "Literal": ts.t.append(("l", x.f[0]))
+    elif isinstance(x, Agg) and x.tag == "Group" and len(x.f) == 2 and isinstance(x.f[0], str): ts.t.append(("g", x.f[0], x.f[1]))
+    elif isinstance(x, Agg) and x.tag == "Punct" and len(x.f) == 2 and isinstance(x.f[0], str): ts.t.append(("p", x.f[0], x.f[1]))
+    elif isinstance(x, En) and x.enum == "TokenTree": to_tokens(eng, x.f[0], ts)
     elif isinstance(x, Sc):
         if x.ty == "bool":
             if isinstance(x.v, bool): ts.t.append(("i", "true" if x.v else "false"))
